@@ -16,12 +16,14 @@ COMMON = r'''
 #endif
 /* A spec may `#define VF_SEQ_EXACT <N>` before including gen.h: vf_seq find/erase then are exact (their loops have a
    constant trip count N and no loop contract; an assertion checks that lengths stay <= N). Default: loop contracts
-   that only keep indices in range (element values after erase, first-occurrence of find are then unknown). */
+   that only keep indices in range (element values after erase, first-occurrence of find are then unknown).
+   `#define VF_SET_EXACT <N>` does the same for vf_set find/erase (and hence insert/count/contains). */
 #ifndef VF_ICAP
 #define VF_ICAP 4         /* capacity of every boost::intrusive::list model (model bound) */
 #endif
 typedef void (*vf_fnptr)(void);
 typedef long vf_str;        /* opaque string id: equality only */
+typedef int vf_excptr;      /* std::exception_ptr: kind of the stored exception (0 = null, else a VF_EXC_* constant) */
 #define VF_STR_EMPTY ((vf_str)0)
 struct vf_fn { vf_fnptr fn; void* env; };
 struct vf_lock { _Bool owns; }; /* std::unique_lock / lock_guard: ownership flag only, locking is not modelled */
@@ -359,11 +361,16 @@ static inline struct vf_set_%(G)s vf_set_%(G)s_copy(const struct vf_set_%(G)s* o
 static inline %(T)s* vf_set_%(G)s_find(struct vf_set_%(G)s* s, %(T)s v)
 {
   size_t i = 0;
+#ifdef VF_SET_EXACT /* exact variant with a CHECKED bound: unrolled, no loop contract (position of v, or n) */
+  __CPROVER_assert(s->n <= VF_SET_EXACT, "vf_set find: size within VF_SET_EXACT");
+/*SET_EXACT_FIND*/
+#else
   while (i < s->n && !(s->k[i] == v))
     __CPROVER_assigns(i)
     __CPROVER_loop_invariant(i <= s->n)
     __CPROVER_decreases(s->n - i)
   { i++; }
+#endif
   return s->k + i;
 }
 static inline size_t vf_set_%(G)s_count(struct vf_set_%(G)s* s, %(T)s v) { return vf_set_%(G)s_find(s, v) != s->k + s->n; }
@@ -374,15 +381,24 @@ static inline size_t vf_set_%(G)s_erase(struct vf_set_%(G)s* s, %(T)s v)
   %(T)s* p = vf_set_%(G)s_find(s, v);
   if (p == s->k + s->n) return 0;
   size_t i = (size_t)(p - s->k);
+#ifdef VF_SET_EXACT /* exact variant: the tail is shifted element by element (order of the other keys kept) */
+/*SET_EXACT_ERASE*/
+#else
   for (size_t j = i; j + 1 < s->n; j++)
     __CPROVER_assigns(j, __CPROVER_object_whole(s->k))
     __CPROVER_loop_invariant(i <= j && j < s->n)
     __CPROVER_decreases(s->n - j)
   { s->k[j] = s->k[j + 1]; }
+#endif
   s->n--;
   return 1;
 }
 '''
+
+_sfind = "".join("#if VF_SET_EXACT > %d\n  if (i == %d && i < s->n && !(s->k[i] == v)) i = %d;\n#endif\n" % (j, j, j + 1) for j in range(EXACT_MAX))
+_serase = "".join("#if VF_SET_EXACT > %d\n  if (i <= %d && %d < s->n) s->k[%d] = s->k[%d];\n#endif\n" % (j + 1, j, j + 1, j, j + 1) for j in range(EXACT_MAX))
+_sguard = "#if VF_SET_EXACT > %d\n#error \"VF_SET_EXACT too large for the unrolled models\"\n#endif\n" % EXACT_MAX
+SET = SET.replace("/*SET_EXACT_FIND*/\n", _sguard + _sfind).replace("/*SET_EXACT_ERASE*/\n", _serase)
 
 MAP = r'''
 /* ---- model of std::map/unordered_map<%(A)s,%(B)s>: distinct keys, entries e[0..n) ---- */
